@@ -43,7 +43,10 @@ type base struct {
 	wantF   *cptvframe.Frame
 }
 
-func (b *base) StopRecording() error { b.calls = append(b.calls, BCall{"stop", true, true}); return nil }
+func (b *base) StopRecording() error {
+	b.calls = append(b.calls, BCall{"stop", true, true})
+	return nil
+}
 func (b *base) StartRecording(bg *cptvframe.Frame, t uint16) error {
 	b.calls = append(b.calls, BCall{"start", b.startOK, bg == b.wantBg && t == b.wantT})
 	if !b.startOK {
@@ -89,14 +92,14 @@ type In struct {
 // tap sits between the client and the throttle and turns every upstream call
 // into an event.
 type tap struct {
-	th      *throttle.ThrottledRecorder
-	b       *base
-	l       *lst
-	c       *clk
-	out     *vh.Out
-	last    time.Time
-	upBg    *cptvframe.Frame
-	upT     uint16
+	th   *throttle.ThrottledRecorder
+	b    *base
+	l    *lst
+	c    *clk
+	out  *vh.Out
+	last time.Time
+	upBg *cptvframe.Frame
+	upT  uint16
 }
 
 func (t *tap) emit(op string, err error, n0 int) {
